@@ -13,12 +13,13 @@ E == Trace[l]
 IsEv(e) == l < EndOf(t0) /\ Trace[l].ev = e /\ Trace[l].panic = "" /\ l' = l + 1
 
 TInit == t0 \in Starts /\ l = t0 /\ cfg = <<>> /\ vals = [v \in Vars |-> NoVal] /\ nops = 0 /\ last = [op |-> "idle"]
+         /\ ftype = "form"                                  \* every trace starts with form.New
 
 FieldRec(x) == F(x.ft, x.var, x.req, x.def)
 TrReset ==
   /\ l = t0 /\ IsEv("reset")
   /\ LET c == [i \in 1..Len(E.cfg) |-> FieldRec(E.cfg[i])] IN c \in Configs /\ cfg' = c
-  /\ last' = [op |-> "new"] /\ UNCHANGED <<vals, nops>>
+  /\ last' = [op |-> "new"] /\ UNCHANGED <<vals, nops, ftype>>
 
 TVOf(x) == TV(x.k, x.v)
 TrSet ==
@@ -36,16 +37,22 @@ TrSubmit ==
   /\ IsEv("submit") /\ Submit
   /\ last'.ok = E.ok
   /\ Accepts(E.toks)
+  /\ E.type = <<"submit">>                                \* whatever the type of the form it was made from
   /\ Len(E.fields) = Len(last'.fields)
   /\ \A i \in 1..Len(E.fields) :
        /\ E.fields[i].var = last'.fields[i].var /\ E.fields[i].ft = last'.fields[i].ft
        /\ E.fields[i].vals \in SubmitAcc(cfg, vals, last'.fields[i])
-TrEncode == IsEv("tokenreader") /\ Encode /\ Accepts(E.toks)
+(* the form's own encoding is well-formed and carries the form's type (one of the four) *)
+TrEncode == /\ IsEv("tokenreader") /\ Encode /\ Accepts(E.toks)
+            /\ (ftype \in ValidTypes => E.type = DocTypeAttr[ftype])
+(* the driver decoded the form's own encoding with the type attribute DocTypeAttr[E.ty] *)
 TrUnmarshal ==
-  /\ IsEv("unmarshal") /\ E.err = "" /\ Unmarshal
-  /\ [i \in 1..Len(E.fields) |-> FieldRec(E.fields[i])] = cfg'
+  /\ IsEv("unmarshal") /\ E.ty \in FormTypes
+  /\ IF E.err = "" THEN /\ Unmarshal(E.ty)
+                         /\ [i \in 1..Len(E.fields) |-> FieldRec(E.fields[i])] = cfg'
+     ELSE UnmarshalRefused(E.ty)
 
-Inv == C19_StoredFits /\ C19_SetIffFits /\ C19_GetAfterSet /\ C19_GetReportsIt /\ C19_SubmitShape
+Inv == C19_StoredFits /\ C19_SetIffFits /\ C19_GetAfterSet /\ C19_GetReportsIt /\ C19_SubmitShape /\ C19_DecodedFormsUsable
 
 TNext ==
   /\ l < EndOf(t0)
